@@ -618,7 +618,7 @@ fn oracle(m: &MLibT, ctx: &mut Ctx) -> Result<(), String> {
             ctx.refused("compile refused");
             ctx.label(&format!("refused: {}", {
                 let mut s = format!("{:?}", e);
-                s.truncate(60);
+                crate::engine::clip(&mut s, 60);
                 s
             }));
             return Ok(());
@@ -650,7 +650,7 @@ fn oracle(m: &MLibT, ctx: &mut Ctx) -> Result<(), String> {
     ctx.label(&format!("{} metal layers", m.stack.metals.len()));
     ctx.sample("stack and cells", || {
         let mut s = format!("{:?}", m);
-        s.truncate(1500);
+        crate::engine::clip(&mut s, 1500);
         s
     });
     let rl = rawlib.read().map_err(|_| "lock")?;
